@@ -662,7 +662,7 @@ func handleBatchWriteRequestError(table string, req *dynamodb.WriteRequest, unpr
 // TransactWriteItems mock response for dynamodb
 func (fd *Client) TransactWriteItems(input *dynamodb.TransactWriteItemsInput) (*dynamodb.TransactWriteItemsOutput, error) {
 	if err := fd.failureErr(); err != nil {
-		return nil, ErrForcedFailure
+		return nil, err
 	}
 
 	//TODO: Implement transact write
